@@ -4,7 +4,7 @@
    quantifies over all fuels and all terminating runs); I = transcription of goja's compiler/VM (Model.compile, vm_step). *)
 From Coq Require Import List Arith ZArith Bool.
 Import ListNotations.
-From Verif.C08 Require Import Model Proofs ProofsI.
+From Verif.C08 Require Import Model Proofs ProofsI ProofsC2 ProofsC4.
 
 (* ---- S ---------------------------------------------------------------------------------------- *)
 
@@ -109,8 +109,40 @@ Theorem trace_in_syntax : forall n s sc t c sc', exec n s sc = Some (t, c, sc') 
 Proof. intro n. exact (proj1 (Proofs.trace_in_syntax n)). Qed.
 
 (* ---- I ---------------------------------------------------------------------------------------- *)
-(* compile_control_correct (compile s on the VM = S) is NOT proved: on the current tree it is false
-   (the witnesses below: C08-N2, C08-N4, C08-N5, C08-N6), and the carved-out partial statement was not finished in this round. *)
+(* compile_control_correct, partial: FUNCTION-BODY mode (needResult = false), for every program of the fragment
+     frags : no for-of statement, and no finally block whose statement list contains a DIRECT break/continue
+             (the region of the open finding C08-N7; nested ones - inside if/blocks/loops/try - are allowed),
+   at any nesting depth, for which goja's compiler resolves every break/continue target (no INil placeholder, i.e.
+   no "Could not find block"/"Illegal continue" SyntaxError):
+   running [compile_prog true prog] on the VM model from [boot sc] yields exactly S's event trace, the same completion
+   kind (and the same thrown value / uncatchable payload), and ends with the try stack back at the marker frame and the
+   iterator and operand stacks at their entry values.  If moreover no return statement occurs inside a finally block
+   (rffs: outside the region of the open finding C08-N2) the returned VALUE is S's as well.
+   Missing for the full compile_control_correct: for-of (iterStack, enumPopClose), script mode (needResult /
+   completion values: open findings C08-N4..N6 make it false there), finally lists with a direct branch (C08-N7). *)
+Theorem compile_control_correct_partial : forall n prog sc tr c sc',
+  frags prog = true ->
+  ~ In INil (compile_prog true prog) ->
+  exec_list n prog None sc = Some (tr, c, sc') ->
+  exists k, let o := vm_run k (compile_prog true prog) (boot sc) in
+    vout_trace o = tr /\
+    okind (vout_outcome o) = okind (outcome_of true c) /\
+    (rffs prog = true -> vout_outcome o = outcome_of true c) /\
+    vout_balanced o = true.
+Proof. exact ProofsC4.compile_control_correct_partial. Qed.
+
+(* non-vacuity: L0: while (c()) { try { ev 1; if (c()) break L0 else continue } catch { ev 2 } finally { ev 3; if (c()) throw 9 else {} } }; return 5 *)
+Definition ex_ccc : stmts :=
+  sl [Loop LWhile (Some 0)
+        (Block (sl [Try (sl [Ev 1; If (Break (Some 0)) (Continue None)]) true (sl [Ev 2]) true
+                        (sl [Ev 3; If (Throw 9) (Block SNil)])]));
+      Return 5].
+Example compile_control_correct_partial_ex :
+  frags ex_ccc = true /\ rffs ex_ccc = true /\
+  existsb (fun i => match i with INil => true | _ => false end) (compile_prog true ex_ccc) = false /\
+  run_S 100 true ex_ccc [true; false; false; true; true; false] = ([EEv 1; EEv 3; EEv 1; EEv 3], OValue (VNum 5)) /\
+  run_I 1000 true ex_ccc [true; false; false; true; true; false] = run_S 100 true ex_ccc [true; false; false; true; true; false].
+Proof. vm_compute. repeat split; reflexivity. Qed.
 
 (* regression of the repaired finding C08-N1 (enterFinally now disarms the catch) *)
 Theorem finally_throw_not_caught_by_own_catch :
@@ -178,6 +210,7 @@ Print Assumptions iterator_closed_once.
 Print Assumptions completion_value_rules.
 Print Assumptions uncatchable_runs_nothing_S.
 Print Assumptions trace_in_syntax.
+Print Assumptions compile_control_correct_partial.
 Print Assumptions finally_throw_not_caught_by_own_catch.
 Print Assumptions pending_return_value_refuted.
 Print Assumptions finally_nested_break_value_refuted.
